@@ -717,3 +717,118 @@ def run_mustcheck(prog, ctx=None):
         raise Broken("MUSTCHECK: only %d of the %d calling functions of the reference table still exist" % (matched, len(ref)))
     return res
 
+
+
+def _store_triples(f):
+    """constant stores into objects reached through a pointer: set of (record, member path, constant);
+    ("*" as path: the whole object; "any" as constant: a value that is not a compile-time constant covers every constant)"""
+    out = set()
+    for b, i, n in f.walk_all():
+        if n.get("k") == "bin" and n.get("op") == "=":
+            l = strip(n["a"], lvalue_to_rvalue=False)
+            path = []
+            cur = l
+            rec = None
+            while isinstance(cur, dict) and cur.get("k") == "mem":
+                path.append(cur["f"])
+                if cur.get("arrow"):
+                    rec = cur.get("rec")
+                    break
+                cur = strip(cur["b"], all_casts=True)
+            if rec is None and isinstance(cur, dict) and cur.get("k") == "un" and cur.get("op") == "*" and not path:
+                # *p = value: the whole object
+                PT = f.T(f.pointee(strip(cur["e"], all_casts=True).get("t")) if f.pointee(strip(cur["e"], all_casts=True).get("t")) is not None else -1)
+                if PT.get("k") == "record":
+                    out.add((PT.get("name"), "*", "any"))
+                continue
+            if rec is None or not path:
+                continue
+            v = cval(n["b"])
+            out.add((rec.split("::")[-1], ".".join(reversed(path)), v if v is not None else "any"))
+        elif n.get("k") == "call" and callee_name(n) == "memset" and len(n.get("args", [])) == 3 and cval(n["args"][1]) == 0:
+            a0 = n["args"][0]
+            while isinstance(a0, dict) and a0.get("k") == "cast":
+                PT = f.T(f.pointee(a0.get("t")) if f.pointee(a0.get("t")) is not None else -1)
+                if PT.get("k") == "record":
+                    break
+                a0 = a0["e"]
+            PT = f.T(f.pointee(a0.get("t")) if isinstance(a0, dict) and f.pointee(a0.get("t")) is not None else -1)
+            if PT.get("k") == "record":
+                out.add((PT.get("name", "").split("::")[-1], "*", 0))
+    return out
+
+
+def const_stores(prog):
+    """{file:function -> sorted list of [record, member path, constant]} including what the functions it calls store
+    (fixpoint over the resolved call graph, repository functions only)"""
+    fs = [f for f in prog.functions.values() if not f.nocfg and not f.file.startswith("examples/")]
+    direct = {f.key(): _store_triples(f) for f in fs}
+    callees = {}
+    for f in fs:
+        cs = set()
+        for b, i, e in f.elements():
+            if e.get("k") == "call":
+                for g in prog.resolve_call(f, e):
+                    if not g.nocfg and g.key() in direct:
+                        cs.add(g.key())
+        callees[f.key()] = cs
+    total = {k: set(v) for k, v in direct.items()}
+    changed = True
+    rounds = 0
+    while changed and rounds < 30:
+        changed = False
+        rounds += 1
+        for k, cs in callees.items():
+            for c in cs:
+                add = total[c] - total[k]
+                if add:
+                    total[k] |= add
+                    changed = True
+    return {f.file + ":" + f.qn: (direct[f.key()], total[f.key()]) for f in fs}
+
+
+def _covered(t, cur):
+    rec, path, c = t
+    if t in cur or (rec, path, "any") in cur:
+        return True
+    if (rec, "*", "any") in cur or (c == 0 and (rec, "*", 0) in cur):
+        return True
+    parts = path.split(".")
+    for k in range(1, len(parts)):
+        pre = ".".join(parts[:k])
+        if (rec, pre, "any") in cur or (c == 0 and (rec, pre, 0) in cur):
+            return True
+    return False
+
+
+def run_conststate(prog, ctx=None):
+    """CONSTSTATE (reference table): mustcheck.json records, per function of the unchanged tree, the constants it stores into
+    members of objects it reaches through pointers (`dec->data.msg = -1`, `parse->prev = Section`, `c->base.off = 0`) — the
+    resets and state marks of the code.  A function that still exists keeps each of them: stored by itself, by a function it
+    calls, by a memset / whole-object assignment that covers the member, or replaced by a computed value for the same member.
+    A reset that is gone leaves the member with whatever the previous call, frame or owner put there."""
+    import json as _json, os as _os
+    res = Result("CONSTSTATE")
+    ref = _json.load(open(_os.path.join(_os.path.dirname(_os.path.abspath(__file__)), "mustcheck.json"))).get("consts")
+    if not ref:
+        raise Broken("CONSTSTATE: the reference table has no constant stores")
+    now = const_stores(prog)
+    matched = 0
+    byname = {}
+    for f in prog.functions.values():
+        byname.setdefault(f.file + ":" + f.qn, f)
+    for k, triples in sorted(ref.items()):
+        if k not in now:
+            continue
+        matched += 1
+        direct, total = now[k]
+        f = byname[k]
+        for t in triples:
+            t = (t[0], t[1], t[2])
+            ok = _covered(t, total)
+            res.ob("%s:%s.%s = %s" % (k.split(":", 1)[1], t[0], t[1], t[2]), ok, f, f.line,
+                   "" if ok else "%s no longer stores %s into %s.%s (neither itself nor through a function it calls, and nothing it does covers the member): the reference tree set it here; the member keeps the value of an earlier call or owner" % (
+                       f.qn, t[2], t[0], t[1]))
+    if matched < len(ref) * 3 // 4:
+        raise Broken("CONSTSTATE: only %d of the %d functions of the reference table still exist" % (matched, len(ref)))
+    return res
